@@ -11,7 +11,7 @@ class PROP(Prop):
             "delivery and ALL compositions of short streams; every payload length of every variable-size request and response (all in thorough, all "
             ">= 200 bytes plus a sample in quick); noise strings over {0x00,0x80,0x41-0x48,0x64-0x6E} of length 0..=16 (and up to 40 to "
             "probe the limit, compared with the model only) before a valid frame whose slave id is a noise value, under random chunkings, one chunk, "
-            "byte-wise; long noise (up to 300 bytes) arriving byte by byte.  Oracle: every clean frame delivered once in order; frame after "
+            "byte-wise; long noise (up to 1031 bytes, every length around the multiples of the decoder's 256-entry skip record; every length 0..1099 in the thorough tier) arriving byte by byte and in bursts, server and client side.  Oracle: every clean frame delivered once in order; frame after "
             "admissible noise delivered.  non-trivial = >= 2 frames, a split frame, or noise present")
 
     def cases(self, rng, tier):
@@ -142,12 +142,29 @@ class PROP(Prop):
                     cs.append(Case("SRV rtu %s - - -" % mb.rscript([bytes([n]) + fr]), {"k": "probe_srv", "exp": ["C:%d:%s" % (b, mb.show_req(req)), "WAIT"], "nparts": 1, "nl": 1}))
                     break
         # long byte-wise noise
-        for nl in (50, 100, 300):
+        # (the decoder keeps a bounded record of the bytes it skipped -- 256 entries -- which must not influence what it delivers:
+        #  lengths around every multiple of that bound, byte by byte and in bursts with the frame attached to the last burst,
+        #  on the server and on the client side)
+        longs = [50, 100, 300] + list(range(253, 262)) + list(range(511, 520)) + [770, 773, 774, 775, 1031]
+        if tier == "thorough":
+            longs = sorted(set(longs + list(range(0, 1100))))
+        for nl in longs:
             noise = bytes(rng.choice(rtugen.NOISE) for _ in range(nl))
             slave = rng.choice(rtugen.NOISE)
             fr = mb.rtu_frame(slave, b"\x03\x00\x01\x00\x01")
             data = noise + fr
             cs.append(Case("SRV rtu %s - - -" % mb.rscript([data[i:i + 1] for i in range(len(data))]), {"k": "srv_noise", "adm": True, "exp": ["C:%d:RHR:1:1" % slave, "WAIT"], "nparts": len(data), "nl": nl}))
+            for burst in (7, 10, 16):
+                if nl < 200 or (tier == "quick" and burst != 10):
+                    continue
+                parts = [noise[i:i + burst] for i in range(0, nl, burst)]
+                parts[-1] = parts[-1] + fr
+                cs.append(Case("SRV rtu %s - - -" % mb.rscript(parts), {"k": "srv_noise", "adm": True, "exp": ["C:%d:RHR:1:1" % slave, "WAIT"], "nparts": len(parts), "nl": nl}))
+            rsp = ("RHR", [rng.randrange(65536)])
+            rfr = mb.rtu_frame(slave, mb.spec_rsp_pdu(rsp))
+            rdata = noise + rfr
+            cs.append(Case(cligen.cli_line("rtu", slave, [cligen.call_op(("RHR", 1, 1), R=mb.rscript([rdata[i:i + 1] for i in range(len(rdata))]))]),
+                           {"k": "cli_noise", "adm": True, "want": "OK:" + mb.show_rsp(mb.pad_rsp(rsp)), "nparts": len(rdata), "nl": nl}))
         return cs
 
     def oracle(self, c):
